@@ -5,11 +5,14 @@ package staking
 
 import (
 	"errors"
+	"math/big"
 
 	"github.com/youchainhq/go-youchain/common"
 	"github.com/youchainhq/go-youchain/core/state"
+	"github.com/youchainhq/go-youchain/params"
 	"github.com/youchainhq/go-youchain/trie"
 	"github.com/youchainhq/go-youchain/youdb"
+	"github.com/youchainhq/go-youchain/zzverif"
 )
 
 type zzTrie struct{ m map[string][]byte }
@@ -71,3 +74,34 @@ func zzPub(i int) []byte {
 }
 
 func zzValAddr(i int) common.Address { return zzPubToAddress(zzPub(i)) }
+
+// zzStatsFollow: the validator statistics (kind "validator": everybody) are the
+// recomputation from the records of validators 1..n — tokens, stakes and counts split by
+// status.  (C08's invariant, for harnesses of the staking package.)
+func zzStatsFollow(s *state.StateDB, n int) bool {
+	onTok, offTok, onStake, offStake := new(big.Int), new(big.Int), new(big.Int), new(big.Int)
+	var on, off uint64
+	for i := 1; i <= n; i++ {
+		v := s.GetValidatorByMainAddr(zzValAddr(i))
+		if v == nil {
+			continue
+		}
+		if v.Status == params.ValidatorOnline {
+			onTok.Add(onTok, v.Token)
+			onStake.Add(onStake, v.Stake)
+			on++
+		} else {
+			offTok.Add(offTok, v.Token)
+			offStake.Add(offStake, v.Stake)
+			off++
+		}
+	}
+	st, err := s.GetValidatorsStat()
+	if err != nil {
+		return false
+	}
+	k := st.GetByKind(params.KindValidator)
+	return zzverif.All(k.GetOnlineToken().Cmp(onTok) == 0, k.GetOfflineToken().Cmp(offTok) == 0,
+		k.GetOnlineStake().Cmp(onStake) == 0, k.GetOfflineStake().Cmp(offStake) == 0,
+		k.GetCount() == on, k.GetOfflineCount() == off)
+}
